@@ -213,8 +213,9 @@ def run_job(job, use_cache=True):
     Runs `python -m <module> <jobdir>`; the module reads job.json and writes out.json."""
     h = hashlib.sha256()
     h.update(canon({k: job[k] for k in ("module", "args")}).encode())
-    modfile = os.path.join(env.VERIF_ROOT, *job["module"].split(".")) + ".py"
-    h.update(env.code_hash([modfile] + [os.path.join(_HERE, f) for f in _MON_COMMON if os.path.exists(os.path.join(_HERE, f))] + [os.path.join(_HERE, f) for f in job.get("extra_files", [])]).encode())
+    files = glob.glob(os.path.join(_HERE, "jobs", "*.py"))
+    files += [os.path.join(_HERE, f) for f in _MON_COMMON + ["families.py", "build.py", "gridutil.py"] if os.path.exists(os.path.join(_HERE, f))]
+    h.update(env.code_hash(files).encode())
     key = h.hexdigest()[:20]
     d = os.path.join(cache_root(), "job", key)
     os.makedirs(d, exist_ok=True)
